@@ -9,38 +9,68 @@ From Romea Require Import Num NumR GeodesyModel LambertModel.
 From Romea.gen Require Import RepoConstants SrcFuns.
 Local Open Scope R_scope.
 
+(* [dict] exposes the real operations behind the dictionary projections; [req] closes an equation between two real terms
+   that are the same up to the ring laws at some depth (same function symbols applied to ring-equal arguments): a
+   re-association or a commutation in the C++ expression does not break a tie lemma, a change of meaning does. *)
+Ltac dict := cbn [nadd nsub nmul ndiv nneg nsqrt nsin ncos ntan natan nasin nacos nexp nln nabs natan2 npow npi nofZ nofDec
+                  nfmod nltb nleb neqb nzero n_one ntwo nhalf ROps].
+Ltac unify1 f :=
+  match goal with |- context [f ?a] => match goal with |- context [f ?b] =>
+    tryif constr_eq a b then fail else replace (f b) with (f a) by (f_equal; ring) end end.
+Ltac unify2 f :=
+  match goal with |- context [f ?a ?c] => match goal with |- context [f ?b ?d] =>
+    tryif (constr_eq a b; constr_eq c d) then fail else replace (f b d) with (f a c) by (f_equal; ring) end end.
+(* arguments of the same function symbol that are ring-equal are made syntactically equal, innermost first *)
+Ltac unify_apps :=
+  repeat first [ unify1 sin | unify1 cos | unify1 tan | unify1 atan | unify1 asin | unify1 acos | unify1 exp | unify1 ln
+               | unify1 sqrt | unify1 Rabs | unify1 Rinv | unify2 Ratan2 | unify2 Rpower | unify2 Rfmod
+               | unify2 Rltb | unify2 Rleb ].
+Ltac req_n n :=
+  lazymatch n with
+  | O => fail "terms differ"
+  | S ?m => first [ reflexivity | ring | (progress f_equal; req_n m) ]
+  end.
+Ltac req := unfold Rdiv; unify_apps; req_n 12%nat.
+
 Lemma dec_1_0 : IZR 1 * powerRZ 10 0 = 1.
 Proof. simpl. lra. Qed.
 
 Lemma dec_15_m1 : IZR 15 * powerRZ 10 (-1) = IZR meridional_radius_exponent_m * powerRZ 10 meridional_radius_exponent_e.
 Proof. reflexivity. Qed.
 
+Lemma izr2 : IZR 2 = 1 + 1.
+Proof. replace (IZR 2) with 2 by reflexivity. lra. Qed.
+Lemma dec_2_0 : IZR 2 * powerRZ 10 0 = 1 + 1.
+Proof. simpl. lra. Qed.
+Ltac lits := rewrite ?dec_2_0, ?dec_1_0, ?izr2.
+
 Lemma tie_isometricLatitude lat e : src_isometricLatitude ROps lat e = isometricLatitude ROps lat e.
-Proof. reflexivity. Qed.
+Proof. unfold src_isometricLatitude, isometricLatitude. dict. lits. req. Qed.
 
 Lemma tie_grandeNormale lat a e : src_grandeNormale ROps lat a e = grandeNormale ROps lat a e.
-Proof. reflexivity. Qed.
+Proof. unfold src_grandeNormale, grandeNormale, pow2. dict. lits. req. Qed.
 
 Lemma tie_meridionalRadius lat (el : ellipsoid (T:=R)) :
-  src_meridionalRadius ROps lat (el_a el) (el_e2 el) (el_e el) = meridionalRadius ROps el lat.
-Proof. reflexivity. Qed.
+  src_meridionalRadius ROps lat (el_a el) (el_e el) (el_e2 el) = meridionalRadius ROps el lat.
+Proof. unfold src_meridionalRadius, meridionalRadius, pow2. dict. rewrite dec_15_m1. lits. req. Qed.
 
 Lemma tie_transversalRadius lat (el : ellipsoid (T:=R)) :
   src_transversalRadius ROps lat (el_a el) (el_e el) = transversalRadius ROps el lat.
-Proof. reflexivity. Qed.
+Proof. unfold src_transversalRadius, transversalRadius, pow2. dict. lits. req. Qed.
 
 Lemma tie_toECEF (el : ellipsoid (T:=R)) (g : geodetic (T:=R)) :
-  src_toECEF ROps (g_lon g) (g_lat g) (g_alt g) (el_a el) (el_e2 el)
+  src_toECEF ROps (el_a el) (el_e2 el) (g_alt g) (g_lat g) (g_lon g)
   = (vx (toECEF ROps el g), vy (toECEF ROps el g), vz (toECEF ROps el g)).
 Proof.
-  unfold src_toECEF, toECEF, primeVertical. cbn [vx vy vz nofDec nadd nsub nmul ndiv nsqrt nsin ncos n_one ROps].
-  rewrite !dec_1_0. reflexivity.
+  unfold src_toECEF, toECEF, primeVertical. cbv zeta. cbn [vx vy vz]. dict. lits. req.
 Qed.
 
 Lemma tie_toLambert (pr : projection (T:=R)) e (w : wgs84 (T:=R)) :
-  src_toLambert ROps (w_lon w) (w_lat w) e (p_xs pr) (p_c pr) (p_n pr) (p_lon0 pr) (p_ys pr)
+  src_toLambert ROps (p_c pr) e (p_lon0 pr) (p_n pr) (w_lat w) (w_lon w) (p_xs pr) (p_ys pr)
   = (v2x (toLambert ROps pr e w), v2y (toLambert ROps pr e w)).
-Proof. reflexivity. Qed.
+Proof.
+  unfold src_toLambert, toLambert. cbv zeta. rewrite tie_isometricLatitude. cbn [v2x v2y]. dict. req.
+Qed.
 
 (* ENUConverter::setAnchor: the 3x3 block written column by column equals the model's frame (rows of the generated tuple
    are rows of the matrix).  The only representational difference is the literal 0.0 in the east column. *)
@@ -54,6 +84,6 @@ Lemma tie_enuFrame lat lon :
   (let m := frame_rotation ROps lat lon in
    (m00 m, m01 m, m02 m, m10 m, m11 m, m12 m, m20 m, m21 m, m22 m)).
 Proof.
-  unfold src_enuFrame, frame_rotation. cbn [m00 m01 m02 m10 m11 m12 m20 m21 m22 nofDec nzero nmul ROps].
-  rewrite dec_0_0. reflexivity.
+  unfold src_enuFrame, frame_rotation. cbv zeta. cbn [m00 m01 m02 m10 m11 m12 m20 m21 m22]. dict.
+  rewrite dec_0_0. req.
 Qed.
